@@ -291,6 +291,51 @@ func baseObject(env *Env, variant string, flags []string) (string, error) {
 
 // ---- per-case generation
 
+// The output of wuffs-c is cached in memory (bounded), so that running the
+// same cases for the second build variant does not run wuffs-c again.
+type genEntry struct {
+	gen     []byte
+	failure string
+}
+
+var (
+	genCacheMu    sync.Mutex
+	genCache      = map[[32]byte]genEntry{}
+	genCacheOrder [][32]byte
+	genCacheBytes int
+)
+
+const genCacheMax = 96 << 20
+
+func genKey(env *Env, cc *ccase) [32]byte {
+	return sha256.Sum256([]byte(env.WuffsC + "\x00" + cc.pkg + "\x00" + filepath.Base(cc.wfile) + "\x00" + cc.c.Source))
+}
+
+func genCacheGet(k [32]byte) ([]byte, string, bool) {
+	genCacheMu.Lock()
+	defer genCacheMu.Unlock()
+	e, ok := genCache[k]
+	return e.gen, e.failure, ok
+}
+
+func genCachePut(k [32]byte, gen []byte, failure string) {
+	genCacheMu.Lock()
+	defer genCacheMu.Unlock()
+	if _, ok := genCache[k]; ok {
+		return
+	}
+	genCache[k] = genEntry{gen, failure}
+	genCacheOrder = append(genCacheOrder, k)
+	genCacheBytes += len(gen) + len(failure) + 64
+	for genCacheBytes > genCacheMax && len(genCacheOrder) > 1 {
+		old := genCacheOrder[0]
+		genCacheOrder = genCacheOrder[1:]
+		e := genCache[old]
+		genCacheBytes -= len(e.gen) + len(e.failure) + 64
+		delete(genCache, old)
+	}
+}
+
 func (cc *ccase) fail(kind, msg string) {
 	cc.err = &Event{Prop: "C11", Kind: kind, Values: trunc(msg, 1500)}
 }
@@ -307,21 +352,31 @@ func (cc *ccase) generate(env *Env, dir string) {
 		cc.fail("driver-gen-failed", err.Error())
 		return
 	}
-	cmd := exec.Command(env.WuffsC, "gen", "-package_name", cc.pkg, "-genlinenum", cc.wfile)
-	if env.Root != "" {
-		cmd.Dir = env.Root
+	key := genKey(env, cc)
+	gen, failure, hit := genCacheGet(key)
+	if !hit {
+		cmd := exec.Command(env.WuffsC, "gen", "-package_name", cc.pkg, "-genlinenum", cc.wfile)
+		if env.Root != "" {
+			cmd.Dir = env.Root
+		}
+		var stdout, stderr bytes.Buffer
+		cmd.Stdout, cmd.Stderr = &stdout, &stderr
+		if err := cmd.Run(); err != nil {
+			failure = strings.TrimSpace(stderr.String()) + " (" + err.Error() + ")"
+		} else {
+			gen = stdout.Bytes()
+		}
+		genCachePut(key, gen, failure)
 	}
-	var stdout, stderr bytes.Buffer
-	cmd.Stdout, cmd.Stderr = &stdout, &stderr
-	if err := cmd.Run(); err != nil {
-		cc.fail("wuffs-c-failed", strings.TrimSpace(stderr.String())+" ("+err.Error()+")")
+	if failure != "" {
+		cc.fail("wuffs-c-failed", failure)
 		return
 	}
-	if err := os.WriteFile(cc.cfile, stdout.Bytes(), 0o644); err != nil {
+	if err := os.WriteFile(cc.cfile, gen, 0o644); err != nil {
 		cc.fail("driver-gen-failed", err.Error())
 		return
 	}
-	cc.clines = strings.Split(stdout.String(), "\n")
+	cc.clines = strings.Split(string(gen), "\n")
 	if msg := cc.parseSigs(); msg != "" {
 		cc.fail("driver-gen-failed", msg)
 		return
